@@ -68,4 +68,20 @@ TEXT = {
          'level': 'For the three option decorators the functools.partial returned for func=None must bind exactly the keyword-only options to the same-named parameters; '
                   'each option is followed from the decorator through the constructor to its point of use; the per-loop registry is a WeakKeyDictionary keyed by get_running_loop() with atomic create-and-store.',
          'note': COMMON_NOTE + '"behaves identically" as observable behaviour (follows only to the extent both forms then run the same code with the same bindings).'},
+ 'C03': {'ref': '4.C C03', 'technique': TECH + 'success-only-flag path rule, effect sets of the round set, value flow of dequeued producers through the gather idiom, thread-affinity classes',
+         'level': 'The completion flag is settable only on the normal edge of the wrapped call; the round set is bound once and only grows; an Exception of the call is contained and leads back to the round loop; '
+                  'every dequeue (3 sites) flows into a loader coroutine that is gathered before the list is cleared or the timer awaited; the loader contains producer failures and records each element as it arrives; '
+                  'every entry point makes exactly one thread-safe hand-off with its adaptor; any-thread code touches the asyncio.Queue only via call_soon_threadsafe and must not mutate the loop-owned flag '
+                  '(today violated by _put: known finding F5); no suspension between set() and the round-loop test.',
+         'note': COMMON_NOTE + '"eventually" in time; asyncio.Queue / wait_for internals; exactly-once for foreign-thread submissions (not promised).'},
+ 'C07': {'ref': '4.C C07', 'technique': TECH + 'ordering rule in wait(), atomic-section rule (clear+task_done before next suspension), get/task_done pairing typestate, cancel-transparency of handlers in the daemon',
+         'level': 'wait() joins the queue then waits for the flag with nothing suspending afterwards; after the blocking get the flag is cleared and the producer marked done before the daemon can be suspended; '
+                  'each successful dequeue is paired with exactly one task_done; wait() cancels only the pending timed read under cancel=True; Timeout and Cancelled edges of the timed read both flush; '
+                  'every handler in the daemon\'s coroutines that can catch a cancellation delivered at a suspension point must re-raise (3 swallow it today: known finding F6).',
+         'note': COMMON_NOTE + 'asyncio\'s FIFO ready queue and Queue.join (trusted); liveness in time.'},
+ 'C08': {'ref': '4.C C08', 'technique': TECH + 'who-may-call rule for the wrapped function, control dependence on the non-empty test, must-pass-through of a fresh timer, def-use of the timeout',
+         'level': 'The wrapped function has one awaited call site inside the single daemon (spawned once); the call is control-dependent on the truthiness of the set passed; '
+                  'it is reachable only through the expiry/cancel edge of a timer armed after the last dequeue, which is wait_for(queue.get(), self.timeout) with self.timeout the constructor option; '
+                  'drain precedes arming, drained producers are gathered before the timer is awaited, and a successful timed get goes back to the loop head.',
+         'note': COMMON_NOTE + 'every numeric timing claim (the call starts `timeout` after the last arrival; tie behaviour).'},
 }
